@@ -9,13 +9,13 @@ Local Open Scope Z_scope.
 Record RInvX (s : rstate) (x : option nat) : Prop := {
   inv_live : ∀ id j, rs_jobs s !! id = Some j → r_live j = true →
              is_Some (r_start j) ∧ r_completed j = false ∧ r_canceled j = false;
-  inv_comp : ∀ id j, rs_jobs s !! id = Some j → r_completed j = true → is_Some (r_start j);
+  inv_comp : ∀ id j, rs_jobs s !! id = Some j → r_completed j = true → r_is_waiting j = false;
   inv_wl : ∀ p id, id ∈ wl_get (rs_wait s) p →
            ∃ j, rs_jobs s !! id = Some j ∧ r_pipe j = p ∧ r_is_waiting j = true ∧ r_removed j = false;
   inv_sorted : ∀ p, StronglySorted lt (wl_get (rs_wait s) p);
   inv_queued : rs_shut s = false → ∀ id j, Some id ≠ x → rs_jobs s !! id = Some j → r_is_waiting j = true → r_removed j = false →
                id ∈ wl_get (rs_wait s) (r_pipe j);
-  inv_timer : ∀ id j, rs_jobs s !! id = Some j → r_is_waiting j = true → r_timer j = false →
+  inv_timer : ∀ id j, rs_jobs s !! id = Some j → r_is_waiting j = true → r_removed j = false → r_timer j = false →
               r_created j + Z.of_nat (r_delay j) <= rs_now s;
   inv_start : ∀ id j t, rs_jobs s !! id = Some j → r_start j = Some t →
               r_created j + Z.of_nat (r_delay j) <= t ∧ t <= rs_now s;
@@ -92,9 +92,9 @@ Lemma upd_inv s x x' id j f :
   RInvX s x → rs_jobs s !! id = Some j →
   r_pipe (f j) = r_pipe j → r_created (f j) = r_created j → r_delay (f j) = r_delay j → r_removed (f j) = r_removed j →
   (r_live (f j) = true → is_Some (r_start (f j)) ∧ r_completed (f j) = false ∧ r_canceled (f j) = false) →
-  (r_completed (f j) = true → is_Some (r_start (f j))) →
+  (r_completed (f j) = true → r_is_waiting (f j) = false) →
   (r_creq (f j) = true → r_completed (f j) = true → r_canceled (f j) = true) →
-  (r_is_waiting (f j) = true → r_is_waiting j = true ∧ (r_timer (f j) = false → r_created j + Z.of_nat (r_delay j) <= rs_now s)) →
+  (r_is_waiting (f j) = true → r_is_waiting j = true ∧ (r_removed j = false → r_timer (f j) = false → r_created j + Z.of_nat (r_delay j) <= rs_now s)) →
   (∀ t, r_start (f j) = Some t → r_created j + Z.of_nat (r_delay j) <= t ∧ t <= rs_now s) →
   (id ∈ wl_get (rs_wait s) (r_pipe j) → r_is_waiting (f j) = true) →
   (x' = x ∨ (x = Some id ∧ x' = None ∧ r_is_waiting (f j) = false)) →
@@ -118,7 +118,7 @@ Proof.
     + intros Hj' Hw Hr'. apply inv_queued0; try done.
       destruct Hx as [->|(-> & -> & Hnw)]; [done|congruence].
   - intros id' j'. rewrite r_upd_lookup. destruct (decide (id = id')) as [<-|Hne]; [|by apply inv_timer0].
-    rewrite Hj. intros [= <-] Hw Ht. rewrite Hc, Hd. by apply Hwait.
+    rewrite Hj. intros [= <-] Hw Hrm Ht. rewrite Hc, Hd. rewrite Hr in Hrm. by apply Hwait.
   - intros id' j' t. rewrite r_upd_lookup. destruct (decide (id = id')) as [<-|Hne]; [|by apply inv_start0].
     rewrite Hj. intros [= <-] Ht. rewrite Hc, Hd. by apply Hstart.
   - intros id' j'. rewrite r_upd_lookup. destruct (decide (id = id')) as [<-|Hne]; [|by apply inv_created0].
@@ -194,7 +194,7 @@ Proof.
     apply lookup_snoc_Some. by left.
   - done.
   - intros Hs id j' Hne [?|[-> ->]]%lookup_snoc_Some; [|done]. by apply inv_queued0.
-  - intros id j' [?|[-> ->]]%lookup_snoc_Some; [by eapply inv_timer0|]. intros _ Ht. rewrite Hcr, (Htd Ht). simpl. lia.
+  - intros id j' [?|[-> ->]]%lookup_snoc_Some; [by eapply inv_timer0|]. intros _ _ Ht. rewrite Hcr, (Htd Ht). simpl. lia.
   - intros id j' t [?|[-> ->]]%lookup_snoc_Some; [by eapply inv_start0|congruence].
   - intros id j' [?|[-> ->]]%lookup_snoc_Some; [by eapply inv_created0|lia].
   - intros id [= <-]. apply Hfresh.
@@ -392,7 +392,7 @@ Proof.
     eapply upd_inv; [exact Hinv2|exact Hjp1|..]; simpl; try done.
     + intros Hl. destruct (inv_live _ _ Hinv prev jp Hjp Hl) as ([t Ht] & _ & Hc).
       apply waiting_inv in Hwp as [? _]. congruence.
-    + intros Hc. by apply (inv_comp _ _ Hinv prev jp).
+    + intros _. unfold r_is_waiting. simpl. by destruct (r_start jp).
     + unfold r_is_waiting. simpl. by destruct (r_start jp).
     + intros t Ht. apply waiting_inv in Hwp as [? _]. congruence.
     + rewrite Hpp, wl_get_set_eq. intros [Hi|Hi%elem_of_list_singleton]%elem_of_app; [done|].
@@ -481,7 +481,7 @@ Qed.
 Lemma tick_inv s d : RInv s → RInv (RState (rs_defs s) (rs_jobs s) (rs_wait s) (rs_shut s) (rs_now s + Z.of_nat d)).
 Proof.
   intros []. split; simpl; try done.
-  - intros id j Hj Hw Ht. specialize (inv_timer0 id j Hj Hw Ht). lia.
+  - intros id j Hj Hw Hrm Ht. specialize (inv_timer0 id j Hj Hw Hrm Ht). lia.
   - intros id j t Hj Ht. specialize (inv_start0 id j t Hj Ht). lia.
   - intros id j Hj. specialize (inv_created0 id j Hj). lia.
 Qed.
@@ -496,9 +496,125 @@ Proof.
   - intros p. constructor.
 Qed.
 
+(** ** save, restart, shutdown *)
+Lemma in_ids_spec i l : in_ids i l = true ↔ i ∈ l.
+Proof.
+  unfold in_ids. rewrite existsb_exists. split.
+  - intros (x & Hx & ->%Nat.eqb_eq). by apply elem_of_list_In.
+  - intros Hi. exists i. split; [by apply elem_of_list_In|apply Nat.eqb_refl].
+Qed.
+
+Lemma wl_get_map_filter (w : list (name * list nat)) (P : nat → bool) p :
+  wl_get (map (fun pl => (fst pl, List.filter P (snd pl))) w) p = List.filter P (wl_get w p).
+Proof. induction w as [|[q l] w IH]; simpl; [done|]. by destruct (Nat.eqb q p). Qed.
+
+Lemma save_lookup s rm id :
+  rs_jobs (r_save s rm) !! id = (fun j => if in_ids id rm then r_remove j else j) <$> rs_jobs s !! id.
+Proof. unfold r_save. simpl. by rewrite list_lookup_imap. Qed.
+
+Lemma save_wait s rm p : wl_get (rs_wait (r_save s rm)) p = List.filter (fun i => negb (in_ids i rm)) (wl_get (rs_wait s) p).
+Proof. unfold r_save. simpl. apply wl_get_map_filter. Qed.
+
+Lemma save_inv s rm : RInv s → RInv (r_save s rm).
+Proof.
+  intros []. split.
+  - intros id j'. rewrite save_lookup. destruct (rs_jobs s !! id) as [j|] eqn:Hj; [|done]. simpl. intros [= <-].
+    destruct (in_ids id rm); simpl; by apply (inv_live0 id j).
+  - intros id j'. rewrite save_lookup. destruct (rs_jobs s !! id) as [j|] eqn:Hj; [|done]. simpl. intros [= <-].
+    destruct (in_ids id rm); [intros Hc; unfold r_is_waiting; simpl; by apply (inv_comp0 id j)|by apply (inv_comp0 id j)].
+  - intros p id. rewrite save_wait. intros Hid.
+    apply elem_of_list_In, filter_In in Hid as [Hid Hn]. apply elem_of_list_In in Hid.
+    destruct (inv_wl0 p id Hid) as (j & Hj & ? & ? & ?). exists j. rewrite save_lookup, Hj. simpl.
+    apply negb_true_iff in Hn. by rewrite Hn.
+  - intros p. rewrite save_wait. apply StronglySorted_filter, inv_sorted0.
+  - intros Hs id j' _. rewrite save_lookup, save_wait. destruct (rs_jobs s !! id) as [j|] eqn:Hj; [|done]. simpl. intros [= <-].
+    destruct (in_ids id rm) eqn:Hin; simpl; [done|]. intros Hw Hr.
+    apply elem_of_list_In, filter_In. split; [apply elem_of_list_In; by apply inv_queued0|]. by rewrite Hin.
+  - intros id j'. rewrite save_lookup. destruct (rs_jobs s !! id) as [j|] eqn:Hj; [|done]. simpl. intros [= <-].
+    destruct (in_ids id rm); simpl; [done|]. by apply (inv_timer0 id j).
+  - intros id j' t. rewrite save_lookup. destruct (rs_jobs s !! id) as [j|] eqn:Hj; [|done]. simpl. intros [= <-].
+    destruct (in_ids id rm); simpl; by apply (inv_start0 id j).
+  - intros id j'. rewrite save_lookup. destruct (rs_jobs s !! id) as [j|] eqn:Hj; [|done]. simpl. intros [= <-].
+    destruct (in_ids id rm); simpl; by apply (inv_created0 id j).
+  - done.
+  - intros id j'. rewrite save_lookup. destruct (rs_jobs s !! id) as [j|] eqn:Hj; [|done]. simpl. intros [= <-].
+    destruct (in_ids id rm); simpl; by apply (inv_creq0 id j).
+Qed.
+
+Lemma terminal_spec now j :
+  r_terminal now j = true ↔
+  r_is_running j = false ∧ r_live j = false ∧ r_is_waiting j = false ∧ r_creq j = false ∧ r_created j <= now ∧ r_timer j = false
+  ∧ (∀ t, r_start j = Some t → r_created j + Z.of_nat (r_delay j) <= t ∧ t <= now).
+Proof.
+  unfold r_terminal. rewrite !andb_true_iff, !negb_true_iff, Z.leb_le. split.
+  - intros [[[[[[H1 H2] H3] H4] H5] H6] Hs]. split; [done|]. split; [done|]. split; [done|]. split; [done|]. split; [done|].
+    split; [done|]. intros t1 Ht1. rewrite Ht1 in Hs. apply andb_true_iff in Hs as [Ha Hb]. apply Z.leb_le in Ha, Hb. lia.
+  - intros (H1&H2&H3&H4&H5&H6&Hs). repeat split; try done. destruct (r_start j) as [t1|]; [|done].
+    destruct (Hs t1 eq_refl). apply andb_true_iff. split; by apply Z.leb_le.
+Qed.
+
+Lemma terminal_inv ds js now : forallb (r_terminal now) js = true → RInv (RState ds js [] false now).
+Proof.
+  intros Hall. rewrite forallb_forall in Hall.
+  assert (Ht : ∀ id j, js !! id = Some j → r_terminal now j = true).
+  { intros id j Hj. apply Hall, elem_of_list_In. by eapply elem_of_list_lookup_2. }
+  split; simpl.
+  - intros id j Hj Hl. apply Ht, terminal_spec in Hj as (_&?&_). congruence.
+  - intros id j Hj _. by apply Ht, terminal_spec in Hj as (_&_&?&_).
+  - intros p id Hid. by apply elem_of_nil in Hid.
+  - intros p. constructor.
+  - intros _ id j _ Hj Hw. apply Ht, terminal_spec in Hj as (_&_&?&_). congruence.
+  - intros id j Hj Hw. apply Ht, terminal_spec in Hj as (_&_&?&_). congruence.
+  - intros id j t Hj Hst. apply Ht, terminal_spec in Hj as (_&_&_&_&_&_&Hs). by apply Hs.
+  - intros id j Hj. by apply Ht, terminal_spec in Hj as (_&_&_&_&?&_).
+  - done.
+  - intros id j Hj Hq. apply Ht, terminal_spec in Hj as (_&_&_&?&_). congruence.
+Qed.
+
+Lemma restart_inv s js s' : r_restart s js = Some s' → RInv s'.
+Proof. unfold r_restart. destruct (forallb _ js) eqn:H; [|done]. intros [= <-]. by apply terminal_inv. Qed.
+
+Lemma shutdown_inv s : RInv s → RInv (r_shutdown s).
+Proof.
+  intros Hinv. pose proof Hinv as [].
+  assert (Hlk : ∀ id, rs_jobs (r_shutdown s) !! id
+                = (fun j => if in_ids id (wl_get (rs_wait s) (r_pipe j)) then r_set_canceled j else j) <$> rs_jobs s !! id).
+  { intros id. unfold r_shutdown. simpl. by rewrite list_lookup_imap. }
+  assert (Hq : ∀ id j, rs_jobs s !! id = Some j → in_ids id (wl_get (rs_wait s) (r_pipe j)) = true → r_is_waiting j = true).
+  { intros id j Hj Hin. apply in_ids_spec in Hin. destruct (inv_wl0 _ _ Hin) as (j' & Hj' & _ & Hw & _). congruence. }
+  split.
+  - intros id j'. rewrite Hlk. destruct (rs_jobs s !! id) as [j|] eqn:Hj; [|done]. simpl. intros [= <-].
+    destruct (in_ids id _) eqn:Hin; [|by apply (inv_live0 id)]. simpl. intros Hl.
+    destruct (inv_live0 id j Hj Hl) as ([t Ht] & _). apply (Hq id j Hj) in Hin. apply waiting_inv in Hin as [? _]. congruence.
+  - intros id j'. rewrite Hlk. destruct (rs_jobs s !! id) as [j|] eqn:Hj; [|done]. simpl. intros [= <-].
+    destruct (in_ids id _); [|by apply (inv_comp0 id)]. intros _. unfold r_is_waiting. simpl. by destruct (r_start j).
+  - intros p id Hid. by apply elem_of_nil in Hid.
+  - intros p. constructor.
+  - done.
+  - intros id j'. rewrite Hlk. destruct (rs_jobs s !! id) as [j|] eqn:Hj; [|done]. simpl. intros [= <-].
+    destruct (in_ids id _); [|by apply (inv_timer0 id)]. unfold r_is_waiting. simpl. by destruct (r_start j).
+  - intros id j' t. rewrite Hlk. destruct (rs_jobs s !! id) as [j|] eqn:Hj; [|done]. simpl. intros [= <-].
+    destruct (in_ids id _); simpl; by apply (inv_start0 id).
+  - intros id j'. rewrite Hlk. destruct (rs_jobs s !! id) as [j|] eqn:Hj; [|done]. simpl. intros [= <-].
+    destruct (in_ids id _); simpl; by apply (inv_created0 id).
+  - done.
+  - intros id j'. rewrite Hlk. destruct (rs_jobs s !! id) as [j|] eqn:Hj; [|done]. simpl. intros [= <-].
+    destruct (in_ids id _); simpl; [done|]. by apply (inv_creq0 id).
+Qed.
+
+Lemma cancel_all_inv s : RInv s → RInv (r_cancel_all s).
+Proof.
+  unfold r_cancel_all. generalize (seq 0 (length (rs_jobs s))). intros l. revert s.
+  induction l as [|id l IH]; intros s Hinv; simpl; [done|]. apply IH. by apply cancel_inv.
+Qed.
+
 Lemma rstep_inv s e s' r : RInv s → rstep s e = Some (s', r) → RInv s'.
 Proof.
-  intros Hinv. destruct e as [p gok sn|id|d|id|ds|id ec]; simpl.
+  intros Hinv. destruct e as [rm|js| | |p gok sn|id|d|id|ds|id ec]; simpl.
+  - intros [= <- <-]. by apply save_inv.
+  - destruct (r_restart s js) as [s1|] eqn:Hf; simpl; [|done]. intros [= <- <-]. by eapply restart_inv.
+  - intros [= <- <-]. by apply shutdown_inv.
+  - intros [= <- <-]. by apply cancel_all_inv.
   - intros [= Heq]. replace s' with (r_schedule s p gok sn).1 by (by rewrite Heq). by apply schedule_inv.
   - intros [= Heq]. replace s' with (r_cancel s id).1 by (by rewrite Heq). by apply cancel_inv.
   - intros [= <- <-]. by apply tick_inv.
@@ -508,4 +624,4 @@ Proof.
 Qed.
 
 Theorem rreach_inv s : rreach s → RInv s.
-Proof. induction 1 as [ds|s e s' r Hr IH Hs]; [apply init_inv|by eapply rstep_inv]. Qed.
+Proof. induction 1 as [ds|ds js Hjs|s e s' r Hr IH Hs]; [apply init_inv|by apply terminal_inv|by eapply rstep_inv]. Qed.
